@@ -262,6 +262,33 @@ Alpha == CASE AlphaName = "typesquick" -> AlphaTypesQuick(0)
 
 ASSUME Emit => PrintT("ALPHA " \o ToJson(Alpha))
 
+\* ---- C02 / C04 at the level of whole lines: what `encode_hit_objects` writes for a decoded object ----------
+\* (path tokens are PathCodec's subject, the sample lists SampleCodec's; here: type byte, hit-sound byte, position,
+\* ends, span count, node lists.)  The objects are those of a file without timing points: every sample has taken the
+\* default sample point's bank (normal), which Samples!Smp already shows for an unspecified bank.
+EncTy(o) == (CASE o.k = "circle" -> 1 [] o.k = "slider" -> 2 [] o.k = "spinner" -> 8 [] OTHER -> 128)
+            + (IF o.k # "hold" /\ o.nc THEN 4 ELSE 0)
+            + (IF o.k \in {"circle", "slider"} THEN 16 * o.co ELSE 0)
+EncOf(o) ==
+    [ty |-> EncTy(o), snd |-> SoundOf(o.smp), x |-> o.x, y |-> IF o.k = "hold" THEN 192 ELSE o.y, t |-> o.t,
+     end |-> o.t + o.dur, spans |-> o.rep + 1,
+     nsnd |-> [i \in 1..Len(o.nodes) |-> SoundOf(o.nodes[i])],
+     nbank |-> [i \in 1..Len(o.nodes) |-> EncBank(o.nodes[i], TRUE, FALSE)],
+     bi |-> EncBank(o.smp, FALSE, FALSE)]
+\* the encoded line as an abstract line again
+EncLine(o) ==
+    LET e == EncOf(o) IN
+    [BaseLine EXCEPT !.x = e.x, !.y = e.y, !.t = e.t, !.ty = e.ty, !.snd = e.snd, !.bi = e.bi,
+                     !.nf = (CASE o.k = "circle" -> 6 [] o.k = "slider" -> 11 [] o.k = "spinner" -> 7 [] OTHER -> 6),
+                     !.path = EncPathWith(o.cps, TRUE, TRUE), !.rep = e.spans,
+                     !.len = IF o.len = -1 THEN 77 ELSE o.len,          \* no requested length: the computed one is written
+                     !.nsnd = e.nsnd, !.nbank = e.nbank, !.endc = "num", !.end = e.end]
+\* what C02 lists for an object, apart from the control points (PathCodec)
+Core(o) == [k |-> o.k, x |-> o.x, y |-> o.y, t |-> o.t, nc |-> o.nc, co |-> o.co, rep |-> o.rep, dur |-> o.dur,
+            haslen |-> o.len # -1 \/ o.k # "slider",
+            smp |-> NamesBanks(o.smp), nodes |-> [i \in 1..Len(o.nodes) |-> NamesBanks(o.nodes[i])]]
+NoNodeFiles(o) == \A i \in 1..Len(o.nodes) : \A j \in 1..Len(o.nodes[i]) : o.nodes[i][j].n # "file"
+
 \* ---- state machine ---------------------------------------------------------
 VARIABLES hist, last, residue, objs, done
 vars == <<hist, last, residue, objs, done>>
@@ -289,7 +316,8 @@ Reject(i) ==
 Finish ==
     /\ ~done /\ Len(hist) >= MinLines /\ done' = TRUE
     /\ (Emit => PrintT("CASE " \o ToJson([h |-> hist, objs |-> objs, last |-> last.k,
-                        acc |-> [j \in 1..Len(hist) |-> Accepts(Alpha[hist[j]])]])))
+                        acc |-> [j \in 1..Len(hist) |-> Accepts(Alpha[hist[j]])],
+                        enc |-> [j \in 1..Len(objs) |-> EncOf(objs[j])]])))
     /\ UNCHANGED <<hist, last, residue, objs>>
 
 Next == (~done /\ Len(hist) < MaxLines /\ \E i \in 1..Len(Alpha) : Accept(i) \/ Reject(i)) \/ Finish
@@ -304,6 +332,12 @@ FoldAccepted(h, l, acc) ==
     ELSE LET ln == Alpha[Head(h)] IN
          FoldAccepted(Tail(h), [k |-> KindOf(ln.ty), spin |-> Bit2(ln.ty, 8)], Append(acc, Obj(ln, l, <<>>)))
 RejectedHaveNoEffect == objs = FoldAccepted(AcceptedIdx(hist), Last0, <<>>)
+
+PrevLast(j) == IF j = 1 THEN Last0 ELSE [k |-> objs[j - 1].k, spin |-> objs[j - 1].k = "spinner"]
+LineCodec ==
+    \A j \in 1..Len(objs) : LET o == objs[j]  e == EncLine(o) IN
+        /\ Accepts(e)
+        /\ NoNodeFiles(o) => [Core(Obj(e, PrevLast(j), <<>>)) EXCEPT !.haslen = TRUE] = [Core(o) EXCEPT !.haslen = TRUE]
 
 \* C14 structural facts of every accepted object
 ObjShape ==
